@@ -5,7 +5,7 @@ from .. import AnalysisError
 from ..report import Ob
 from ..cfg import calls_at, call_attr, is_self_attr
 from ..state import Analysis, State, TOP, is_token
-from ..norm import Normalizer, cmp_norm, FrameEnv, ctext, subst
+from ..norm import Normalizer, cmp_norm, cmp_polarity, FrameEnv, ctext, subst
 from .. import inventory as inv
 from .. import devices as dv
 from .c02 import foreign_deleg_call
@@ -39,6 +39,28 @@ def value_expr_hook(an, e, st, frame):
     return NotImplemented
 
 
+def tally_step(an, n, before, field):
+    """a statement that updates the tally `self.<field>`: -> ('+' | '?', abstract value of the amount) or None.
+    `self.f += v`, `self.f = self.f + v`, `self.f = v + self.f` (locals substituted) are the same step"""
+    a = n.ast
+    if n.kind != 'stmt':
+        return None
+    if isinstance(a, ast.AugAssign) and is_self_attr(a.target, field):
+        return ('+' if isinstance(a.op, ast.Add) else '?'), an.ev(a.value, before, n.frame)
+    if isinstance(a, ast.Assign) and any(is_self_attr(t, field) for t in a.targets):
+        v = subst(a.value, FrameEnv(n.frame))
+        if isinstance(v, ast.BinOp) and isinstance(v.op, ast.Add):
+            for x, y, orig in ((v.left, v.right, a.value), (v.right, v.left, a.value)):
+                if is_self_attr(x, field):
+                    # evaluate the other operand where it stands in the source (so that aliases of a slot keep their token)
+                    other = None
+                    if isinstance(a.value, ast.BinOp) and isinstance(a.value.op, ast.Add):
+                        other = a.value.right if (is_self_attr(a.value.left, field) or x is v.left) else a.value.left
+                    return '+', an.ev(other if other is not None else y, before, n.frame)
+        return '?', ast.unparse(a.value)
+    return None
+
+
 def check(ctx):
     P = ctx.P
     A = P.cls('Asset')
@@ -55,10 +77,10 @@ def check(ctx):
     lp, vp = [a.arg for a in fn.args.args][1:3]
 
     def zero_refine(an, test, truth, st, frame):
-        r = cmp_norm(N, test, None, True)
-        if r and r[1] == '==' and r[0].is_({vp: 1}):
+        pol = cmp_polarity(N, test, None, {vp: 1}, '==')       # `value == 0`, `0 != value`, `not value == 0` ... in either polarity
+        if pol:
             cur = st.locals.get((frame.id, '#zero'), TOP)
-            want = 'T' if truth else 'F'
+            want = 'T' if truth == (pol == 1) else 'F'
             if cur in ('T', 'F') and cur != want:
                 return None
             s = st.copy()
@@ -159,12 +181,10 @@ def check(ctx):
                 if call_attr(cl) in ('add_cost', 'add_value') and is_self_attr(cl.func) and len(cl.args) == 2:
                     v = an.ev(cl.args[1], before, n.frame)
                     st = st.with_flag(f'{call_attr(cl)}:{v}' + ('#2' if f'{call_attr(cl)}:{v}' in st.flags else ''))
-            if n.kind == 'stmt' and isinstance(a, ast.AugAssign) and is_self_attr(a.target, '_cost_of_produced_parts'):
-                v = an.ev(a.value, before, n.frame)
-                k = f'tally{"+" if isinstance(a.op, ast.Add) else "?"}:{v}'
+            t = tally_step(an, n, before, '_cost_of_produced_parts')
+            if t:
+                k = f'tally{t[0]}:{t[1]}'
                 st = st.with_flag(k + ('#2' if k in st.flags else ''))
-            elif n.kind == 'stmt' and isinstance(a, ast.Assign) and any(is_self_attr(t, '_cost_of_produced_parts') for t in a.targets):
-                st = st.with_flag('tally?:' + ast.unparse(a.value))
             return st
 
         def edge3(an, n, label, st):
@@ -194,7 +214,7 @@ def check(ctx):
             o.fail(P, 'Source.cost_of_produced_parts', 'return self._cost_of_produced_parts', 'the tally is not reported', file=c.mod.path, line=c.node.lineno)
         for s in inv.attr_stores(P, '_cost_of_produced_parts'):
             o.count()
-            if not (s.cls is c and s.func.name in ('__init__', '_pass_part_downstream')):
+            if not (s.cls is c and s.func.name in inv.covered(P, {'__init__', '_pass_part_downstream'})):
                 o.fail(P, s.ctx, s.stmt, 'the cost tally is written outside its owner', file=s.mod.path, line=s.line)
 
     # ---- C16.4 sink ---------------------------------------------------------------------------------------
@@ -212,12 +232,10 @@ def check(ctx):
                     v = an.ev(cl.args[1], before, n.frame)
                     k = f'{call_attr(cl)}:{v}'
                     st = st.with_flag(k + ('#2' if k in st.flags else ''))
-            if n.kind == 'stmt' and isinstance(a, ast.AugAssign) and is_self_attr(a.target, '_value_of_received_parts'):
-                v = an.ev(a.value, before, n.frame)
-                k = f'tally{"+" if isinstance(a.op, ast.Add) else "?"}:{v}'
+            t = tally_step(an, n, before, '_value_of_received_parts')
+            if t:
+                k = f'tally{t[0]}:{t[1]}'
                 st = st.with_flag(k + ('#2' if k in st.flags else ''))
-            elif n.kind == 'stmt' and isinstance(a, ast.Assign) and any(is_self_attr(t, '_value_of_received_parts') for t in a.targets):
-                st = st.with_flag('tally?:' + ast.unparse(a.value))
             if n.kind == 'stmt' and isinstance(a, ast.Assign) and any(is_self_attr(t, '_part') for t in a.targets) and an.ev(a.value, before, n.frame) == 'arg':
                 st = st.with_flag('accepted')
             return st
